@@ -754,7 +754,14 @@ func (sc *siteCollector) trigger(n *hs.Trigger, cx *fctx) {
 		sc.add(reftype.RTrigger, "callback-extra-parameter", cx, nil, func() { cb.Params = append(cb.Params, hs.P("zz_x", hs.TInt)) })
 		for i := range cb.Params {
 			i := i
-			sc.add(reftype.RTrigger, "callback-parameter-dropped", cx, nil, func() { cb.Params = append(cb.Params[:i:i], cb.Params[i+1:]...) })
+			sc.add(reftype.RTrigger, "callback-parameter-dropped", cx, nil, func() {
+				old := cb.Params[i]
+				cb.Params = append(cb.Params[:i:i], cb.Params[i+1:]...)
+				// the body keeps using the name: it becomes a local of the old type
+				if lit := litOfType(sc.resolveWritten(old.T)); lit != nil {
+					cb.Body.Stmts = append([]hs.Stmt{hs.LetT(old.Name, old.T, lit)}, cb.Body.Stmts...)
+				}
+			})
 			for _, alt := range []*hs.Type{hs.TInt, hs.TStr, hs.TBool, hs.TList(hs.TInt)} {
 				alt := alt
 				if reftype.Equal(sc.resolveWritten(cb.Params[i].T), alt) {
